@@ -2,10 +2,16 @@ mod catalog;
 mod checks;
 mod driver;
 mod gen;
-mod hexs;
+mod hexs {
+    pub use sim_core::hexs::*;
+}
 mod layout;
-mod rng;
-mod seams;
+mod rng {
+    pub use sim_core::rng::*;
+}
+mod seams {
+    pub use sim_core::seams::*;
+}
 mod spec;
 mod spec_vectors;
 mod suite;
